@@ -267,7 +267,19 @@ class DocGen:
         if r < 0.7 and rng.random() < 0.6:
             docpr.append(("title", self.text(3)))
         blips = [self.blip() for _ in range(rng.choice([1, 1, 1, 0, 2]))]
-        pic = el("a:graphic", [], [el("a:graphicData", [], [el("pic:pic", [], [el("pic:blipFill", [], [b])]) for b in blips])])
+        def nvpr():
+            # what Word writes inside pic:pic: non-visual properties with their own name / descr / title (the library
+            # takes alt text from wp:docPr only)
+            if rng.random() < 0.5:
+                return []
+            a = [("id", "0"), ("name", "Picture %d" % rng.randint(1, 9))]
+            if rng.random() < 0.6:
+                a.append(("descr", rng.choice(["inner descr", "pic <d>", ""])))
+            if rng.random() < 0.3:
+                a.append(("title", "inner title"))
+            self.hit("pic-cNvPr")
+            return [el("pic:nvPicPr", [], [el("pic:cNvPr", a), el("pic:cNvPicPr")])]
+        pic = el("a:graphic", [], [el("a:graphicData", [], [el("pic:pic", [], nvpr() + [el("pic:blipFill", [], [b])]) for b in blips])])
         kind = rng.choice(["wp:inline", "wp:anchor"])
         children = ([el("wp:docPr", docpr)] if (docpr or rng.random() < 0.5) else []) + [pic]
         return el("w:drawing", [], [el(kind, [], children)])
@@ -306,9 +318,17 @@ class DocGen:
             runs.append(self.run([el("w:instrText", [], [pc] if pc else [])]))
         if kind != "nosep":
             runs.append(self.run([el("w:fldChar", [("w:fldCharType", "separate")])]))
+            if rng.random() < 0.12:
+                # instruction text in the RESULT part of the field (after `separate`): legal, it is not an instruction
+                # of this field any more and must simply be left out
+                runs.append(self.run([el("w:instrText", [], [rng.choice([" PAGE ", ' HYPERLINK "http://late.example/" ', ""])])]))
+                self.hit("instr-after-separate")
             for _ in range(rng.randint(0, 2)):
                 runs.extend(self.inline(depth + 1))
         runs.append(self.run([el("w:fldChar", [("w:fldCharType", "end")])]))
+        if rng.random() < 0.05:
+            runs.append(self.run([el("w:instrText", [], [" STRAY "])]))     # instruction text outside any field
+            self.hit("instr-stray")
         self.hit("field-" + kind)
         return runs
 
@@ -506,6 +526,11 @@ class DocGen:
             trpr = []
             if r < n_head:
                 trpr.append(el("w:tblHeader"))
+            elif r > n_head and rng.random() < self.pf.get("p_late_header", 0.08):
+                # a repeated-header flag on a row that follows a non-header row: legal, and NOT a header row of the
+                # table (only the leading block is) — it stays where it is, in tbody
+                trpr.append(el("w:tblHeader"))
+                self.hit("late-header-row")
             row_children = ([el("w:trPr", [], trpr)] if (trpr or rng.random() < 0.3) else []) + cells
             rows.append(el("w:tr", [], row_children))
         tblpr = []
